@@ -24,7 +24,10 @@ def gen_spec(rng, res, root, p_bad_value=0.15, p_missing=0.12,
         if not kids:
             break
         if rng.random() < p_missing:
-            comps.append(rng.choice(["nosuch", "zz9"]))
+            # no section of that name or type - also spelled so that it
+            # could not be a type name at all
+            comps.append(rng.choice(["nosuch", "zz9", "nosuch", "1st",
+                                     "\u00e9t\u00e9", "k_:x", "no such"]))
             info["missing"] = True
             node = None
             break
@@ -36,7 +39,8 @@ def gen_spec(rng, res, root, p_bad_value=0.15, p_missing=0.12,
         else:
             c = k["type"]
             info["by"].append("type")
-        if family.basic_key(c) is None:
+        if "/" in c or "=" in c:
+            # (a path component cannot spell such a name)
             c = k["type"]
         comps.append(texts.variant(rng, c))
         node = k
